@@ -156,9 +156,23 @@ class SG:
                 if c.chance(0.6):
                     return ("%s %s %s" % (W(e(), lv), op, W(inner, lv + 1)), lv)
                 return ("%s %s %s" % (W(inner, lv), op, W(e(), lv + 1)), lv)
+            if op in "+-" and c.chance(0.15):
+                # 'a - -b', 'a - --b', 'a + ++b': the right operand starts with the operator's character
+                right = op + " " + W(e(), M.L_CAST) if c.chance(0.5) else op + op + W(self.lv_int(d), M.L_UNARY)
+                return ("%s %s %s" % (W(e(), lv), op, right), lv)
             return ("%s %s %s" % (W(e(), lv), op, W(e(), lv + 1)), lv)
         if k == 6:
-            return (c.choice(["-", "+", "~", "!"]) + " " + W(e(), M.L_CAST), M.L_UNARY)
+            op = c.choice(["-", "+", "~", "!"])
+            if c.chance(0.3):
+                # a prefix operator applied to an operand that starts with the same
+                # character: '- --x', '-(--x)', '- -x', '+ ++x', '! !x' - written
+                # without the gap or the parentheses the two would fuse into another token
+                if op in "+-" and c.chance(0.6):
+                    inner = op + op + W(self.lv_int(d), M.L_UNARY)
+                else:
+                    inner = op + " " + W(e(), M.L_CAST)
+                return (op + c.choice([" %s", "(%s)"]) % inner, M.L_UNARY)
+            return (op + " " + W(e(), M.L_CAST), M.L_UNARY)
         if k == 7 or k == 8:
             third = e()
             if c.chance(0.35):
